@@ -8,7 +8,7 @@ from bitarray.util import ba2int, int2ba
 from common import bits_str, hex_str, impl_error
 
 PROP = "C05"
-MODULES = ["C05"]
+MODULES = ["C05", "C05a"]
 GEN = ["Crc"]
 MATCHERS = {}
 
